@@ -50,6 +50,7 @@ let parse_event (line : string) : parsed =
   | "EV" :: "ReloadCall" :: [i] -> Ev (EReloadCall (n (i_ i)))
   | "EV" :: "ReloadRet" :: [i] -> Ev (EReloadRet (n (i_ i)))
   | "EV" :: "Poll" :: i :: [b] -> Ev (EPoll (n (i_ i), b = "1"))
+  | "EV" :: "PollBegin" :: [i] -> Ev (EPollBegin (n (i_ i)))
   | "EV" :: "Emit" :: i :: [x] -> Ev (EEmit (n (i_ i), n (i_ x)))
   | "EV" :: "TrigR" :: [i] -> Ev (ETrigR (n (i_ i)))
   | "EV" :: "TrigS" :: [i] -> Ev (ETrigS (n (i_ i)))
